@@ -15,7 +15,11 @@ RULE = ('Each run: seeded plan of 1-4 concurrent channels (session/direct-'
         'close() right behind it (the closing side then only has to have '
         'received a prefix), reader pause schedules) on a real asyncssh '
         'client/server pair; the seeded scheduler decides segmentation, '
-        'delivery order, reader resume and writer timing. Non-trivial = at '
+        'delivery order, reader resume and writer timing. A second '
+        'population (12% of the runs): one tun@openssh.com channel in layer '
+        '2 or layer 3 mode, both sides writing drawn packets, callback or '
+        'stream reader with pauses: the packets delivered must be the '
+        'packets written, one for one. Non-trivial = at '
         'least one non-empty write was delivered; distinct = distinct '
         '(plan, schedule decisions, trace) signature.')
 
@@ -24,6 +28,10 @@ ASSUMPTIONS = [
     'queue, timers by deadline, I/O observed once per iteration)',
     'PyCA primitives are correct',
     'both endpoints are asyncssh (an independent peer is used in C02)',
+    'tunnel channels: a packet, with its address family in layer 3 mode, is '
+    'at most half the receiver\'s window and at most its maximum packet '
+    'size (a receiver re-opens its window only below half, so that is what '
+    'a packet sent whole can count on)',
 ]
 
 REAL = ['asyncssh connection/channel/session/stream code of both endpoints',
